@@ -8,6 +8,7 @@ import (
 
 	"verifharness/internal/eng"
 	"verifharness/internal/rec"
+	"verifharness/internal/sched"
 )
 
 // Engine-level families: generated block-structured programs run on the real engine, paced by
@@ -46,6 +47,8 @@ type genOpts struct {
 	sortedAnswers bool
 	// subLevels: wrap each `sub` block in this many nested sub-processes (1..3)
 	subLevels int
+	// perturb: seeded yields / micro-sleeps at the engine's schedule points during the run (0 = off)
+	perturb int
 	// noFrame / noStop: the caller frames the case itself and keeps the instance alive (paired runs)
 	noFrame, noStop bool
 }
@@ -59,6 +62,9 @@ func genOptsC01(idx int, tier string) genOpts {
 	if tier == "thorough" {
 		o.maxNodes = 26
 		o.maxDepth = 4
+		if idx%3 == 0 {
+			o.perturb = 1 + idx%2
+		}
 	}
 	return o
 }
@@ -267,6 +273,12 @@ func fmtVars(m map[string]int) string {
 
 func runGraphCase(out *rec.Out, fam string, g *eng.Graph, vars map[string]any, varsInt map[string]int,
 	rng *rec.Rng, stats map[string]int, loopTask map[string]string, o genOpts) {
+	if o.perturb > 0 {
+		ctl := sched.Install()
+		ctl.Perturb(rng.U64(), o.perturb)
+		defer ctl.Remove()
+		stats["perturbed_cases"]++
+	}
 	xmlText := g.XML()
 	if !o.noFrame {
 		out.Begin(fam)
